@@ -1,0 +1,18 @@
+//go:build verif
+
+// Contracts for the deductive checker in /verif (comment-only; compiled only with -tags verif).
+// Ghost ref-store model (refVal, anc): /verif/spec/refstore.spec.
+package fetch
+
+//@ func bytesSliceToMap
+//@   trusted
+//@   ensures m != nil && fresh(m)
+
+// Every ref update of a fetch goes through SaveFetchRef. Without force (the caller's flag or the refspec's own "+"),
+// an existing ref may only move to a descendant, and an existing tag may not move at all.
+//@ func saveFetchedRefs
+//@   props C10
+//@   requires rs != nil && db != nil && u != nil && cmd != nil && dstRefs != nil && forall(i, 0, len(refs), refs[i] != nil)
+//@   callsite SaveFetchRef [C10]: get2(refVal, s, name) == 0 || old(force) || r.Force || (!hasPrefix(name, "tags/") && anc(get2(refVal, s, name), sid(commit)))
+//@   loop 1 invariant dstRefs != nil && cm != nil && forall(i, 0, len(refs), refs[i] != nil)
+//@   loop 2 invariant dstRefs != nil && iter <= len(refs) && forall(i, 0, len(refs), refs[i] != nil)
